@@ -136,7 +136,7 @@ class Mutation:
                         where = loc[0].where(loc[1]) if loc else f.where()
                         what = {"setitem": "item/column assignment", "setattr": "attribute / .loc assignment",
                                 "mut": f"in-place method .{t[2]}()" if t[0] == "mut" else ""}[t[0]]
-                        res.setdefault(p, []).append((where, f"{what}: {ir.show(t, maxdepth=3)[:120]}"))
+                        res.setdefault(p, []).append((where, f"{what}: {ir.show(t, maxdepth=3)[:120]}", t))
                 elif t[0] == "call":
                     for g, bind in self.callees(t, f):
                         if g is f:
@@ -149,6 +149,7 @@ class Mutation:
                             for p in self.roots(a, f):
                                 loc = self.b.loc.get(t)
                                 where = loc[0].where(loc[1]) if loc else f.where()
-                                res.setdefault(p, []).append((where, f"passed to {g.qualname}({q}) which mutates it: {why[0][1]} at {why[0][0]}"))
+                                for w in why:
+                                    res.setdefault(p, []).append((where, f"passed to {g.qualname}({q}) which mutates it: {w[1]} at {w[0]}", w[2]))
         self.mut[f] = res
         return res
